@@ -206,8 +206,11 @@ func (p *gcpPicker) getLeastBusySubConnRef() (*subConnRef, error) {
 	minScRef := p.scRefs[0]
 	minStreamsCnt := minScRef.getStreamsCnt()
 	for _, scRef := range p.scRefs {
-		if scRef.getStreamsCnt() < minStreamsCnt {
-			minStreamsCnt = scRef.getStreamsCnt()
+		// Read each counter once: other pickers change it concurrently, and a
+		// second read may exceed the value that won the comparison (the pool then
+		// grew although a channel had been seen below the watermark).
+		if cnt := scRef.getStreamsCnt(); cnt < minStreamsCnt {
+			minStreamsCnt = cnt
 			minScRef = scRef
 		}
 	}
